@@ -351,6 +351,38 @@ func runC13(c *core.Ctx) {
 		}
 	})
 
+	// 3b. value sweep: every 16-bit value as a cipher suite, as an extension type and as a named
+	// group (256 values per hello): exactly the sixteen GREASE values are left out, nothing else
+	knownExt := map[uint16]bool{0: true, 5: true, 10: true, 11: true, 13: true, 16: true, 18: true, 23: true, 35: true, 43: true, 45: true, 51: true, 13172: true, 0xff01: true}
+	for _, field := range []string{"cipher", "extension", "group"} {
+		for hi0 := 0; hi0 < 256; hi0 += 16 {
+			field, hi0 := field, hi0
+			c.Case(fmt.Sprintf("sweep/%s/%02x00-%02xff", field, hi0, hi0+15), func() {
+				for hi := hi0; hi < hi0+16; hi++ {
+					h := &hello{vers: 0x0303, ciphers: []uint16{0xc02f}, exts: []tlsExt{}, desc: "sweep-" + field}
+					var vals []uint16
+					for lo := 0; lo < 256; lo++ {
+						vals = append(vals, uint16(hi<<8|lo))
+					}
+					switch field {
+					case "cipher":
+						h.ciphers = append(vals, 0xc02f)
+					case "extension":
+						for _, v := range vals {
+							if !knownExt[v] {
+								h.exts = append(h.exts, tlsExt{v, nil})
+							}
+						}
+					case "group":
+						h.groups = vals
+						h.exts = append(h.exts, extGroups(h.groups))
+					}
+					check(h, records(h.message()), fmt.Sprintf("all %s values %02x00..%02xff", field, hi, hi))
+				}
+			})
+		}
+	}
+
 	// 4. record-layer fragmentation: every single split point, and 1-byte first record
 	frag := []*hello{}
 	for _, cn := range []string{"two", "grease-mid", "forty"} {
